@@ -118,6 +118,8 @@ DecOK(r) ==
       m == EvFold(r.base.ev)
       dObs == m.dmax
       U == m.U
+      \* a record may name the property whose conjuncts apply to it (the C20 corpus mixes kinds)
+      P == IF "prop" \in DOMAIN r THEN r.prop ELSE Prop
   IN
   \* ---- every property: the unlimited base run is the specification's decoder (C03)
   /\ Agrees(r.base, spec)
@@ -126,22 +128,22 @@ DecOK(r) ==
   /\ m.pos = r.base.n
   /\ \A i \in 1..Len(r.runs) : r.runs[i].res # "panic"
   \* ---- C03 / C08: every configuration with non-binding limits agrees
-  /\ Prop \in {"C03", "C05", "C08", "C20"} => \A i \in 1..Len(r.runs) : Agrees(r.runs[i], spec)
+  /\ P \in {"C03", "C05", "C08", "C14", "C20"} => \A i \in 1..Len(r.runs) : Agrees(r.runs[i], spec)
   \* ---- C14: strict prefixes of encodings are rejected; consume-all entry points are exact
   /\ r.pfx => ~spec.ok
-  /\ Prop = "C14" =>
+  /\ P = "C14" =>
        LET exact == spec.ok /\ spec.p = Len(r.inp) IN
        /\ r.all.res \in {"ok", "err"} /\ (r.all.res = "ok") = exact /\ (exact => r.all.v = spec.v)
        /\ r.alld.res \in {"ok", "err"} /\ (r.alld.res = "ok") = exact /\ (exact => r.alld.v = spec.v)
-  /\ Prop = "C11" =>        \* the consume-everything variant additionally rejects trailing bytes
+  /\ P = "C11" =>        \* the consume-everything variant additionally rejects trailing bytes
        LET exact == spec.ok /\ spec.p = Len(r.inp) IN
        r.alld.res \in {"ok", "err"} /\ (r.alld.res = "ok") = exact /\ (exact => r.alld.v = spec.v)
   \* ---- C18: skipping agrees with decoding
-  /\ Prop = "C18" => /\ r.skip.res \in {"ok", "err"}
+  /\ P = "C18" => /\ r.skip.res \in {"ok", "err"}
                      /\ (r.skip.res = "ok") = spec.ok
                      /\ spec.ok => r.skip.n = spec.p
   \* ---- C19: every counting layer reports the bytes the bottom input delivered
-  /\ Prop = "C19" =>
+  /\ P = "C19" =>
        \A i \in 1..Len(r.runs) :
           LET run == r.runs[i] IN
           /\ Agrees(run, spec)
@@ -149,7 +151,7 @@ DecOK(r) ==
           /\ \A j \in 1..Len(run.cnt) : ToNat(run.cnt[j]) = run.n
           /\ spec.ok => \A j \in 1..Len(run.cnt) : ToNat(run.cnt[j]) = spec.p
   \* ---- C11: depth limit
-  /\ Prop = "C11" =>
+  /\ P = "C11" =>
        /\ spec.ok => /\ DepthEnvelope(r.E, r.ty, spec.v, dObs)
                      /\ m.d = 0 /\ ~m.under                 \* descents and ascents balance
        /\ \A i \in 1..Len(r.runs) :
@@ -160,7 +162,7 @@ DecOK(r) ==
             ELSE \* stack [counted, depth(dObs)]: exactly enough
                  Agrees(run, spec)
   \* ---- C12: memory limit
-  /\ Prop = "C12" =>
+  /\ P = "C12" =>
        /\ (spec.ok /\ r.mt) => MemEnvelope(r.E, r.ty, spec.v, U)
        /\ \A i \in 1..Len(r.runs) :
             LET run == r.runs[i]
@@ -292,7 +294,7 @@ HistOK(r) ==
 (* lists <<live bytes after the request, bytes delivered so far, depth>>   *)
 (* for every request that raised the live total.                           *)
 (***************************************************************************)
-Allowance == 65536
+Allowance == 262144
 RECURSIVE MaxSz(_, _, _)
 \* largest in-memory size of any node of the type (named types resolved once)
 MaxSz(E, ty, fuel) ==
@@ -342,6 +344,22 @@ LedOK(r) ==
   /\ r.res # "ok" => a1.live = {}                           \* failure released everything already
   /\ a2.live = {} /\ r.dropok                               \* dropping the result releases the rest
   /\ r.leak = 0                                             \* allocator balance
+
+(***************************************************************************)
+(* cnt: CountedInput driven directly over an input that only records what  *)
+(* it is asked for: a sequence of reads <<length (8 digits), succeeds>> and *)
+(* the counter after each (C19).  Lengths go beyond 2^32 - one read may be  *)
+(* larger than any 32-bit quantity - so the sums are done on digit strings; *)
+(* the counter is the saturated sum of the lengths of the reads that        *)
+(* succeeded.                                                               *)
+(***************************************************************************)
+SatAdd64(a, b) == LET s == DigAdd(a, b) IN IF Fits(s, 8) THEN Pad(Strip(s), 8) ELSE F(8)
+CntOK(r) ==
+  LET step(a, i) == [ok |-> a.ok /\ Pad(Strip(r.counts[i]), 8) = (IF r.ops[i][2] THEN SatAdd64(a.c, r.ops[i][1]) ELSE a.c),
+                     c |-> IF r.ops[i][2] THEN SatAdd64(a.c, r.ops[i][1]) ELSE a.c]
+  IN /\ r.res = "ok"
+     /\ Len(r.counts) = Len(r.ops)
+     /\ FoldLeft(step, [ok |-> TRUE, c |-> Z(8)], [i \in 1..Len(r.ops) |-> i]).ok
 
 (***************************************************************************)
 (* skipenc: a value in a skipped enum variant encodes to no bytes through  *)
@@ -418,6 +436,7 @@ BitCapOK(r) ==
 
 RecOK(r) ==
   CASE r.k = "enc" -> EncOK(r)
+    [] r.k = "cnt" -> CntOK(r)
     [] r.k = "bitcap" -> BitCapOK(r)
     [] r.k = "join" -> JoinOK(r)
     [] r.k = "cat" -> CatOK(r)
